@@ -41,7 +41,9 @@ LETTERS = [
     "qp.ctrl(qp.IsingXX(A[3], [2, 3]), control=[0, 1], work_wires=['w'], work_wire_type='borrowed')",
 ]
 SINGLE_ONLY = ["qp.pow(qp.Identity(0), 0)", "qp.pow(qp.PhaseShift(A[3], 0), 0.5)", "qp.Incrementer([0, 1, 2])", "qp.GlobalPhase(A[0])",
-               "qp.pow(qp.T(0), 7)", "qp.adjoint(qp.adjoint(qp.RX(A[0], 1)))", "qp.ctrl(qp.adjoint(qp.T(2)), control=[0, 1])"]
+               "qp.pow(qp.T(0), 7)", "qp.adjoint(qp.adjoint(qp.RX(A[0], 1)))", "qp.ctrl(qp.adjoint(qp.T(2)), control=[0, 1])",
+               # nested work-wire allocation: Lemma 7.11 takes one wire, the inner MultiControlledX must then respect the rest of the budget
+               "qp.ctrl(qp.IsingXX(A[2], [3, 4]), control=[0, 1, 2])"]
 SUB12 = [0, 2, 4, 5, 7, 9, 12, 15, 17, 18, 20, 23]
 SUB8 = [0, 2, 4, 7, 12, 15, 17, 23]
 
@@ -280,6 +282,10 @@ def cases(tier):
 
 def run(ctx):
     cs = cases(ctx.tier)
+    if getattr(ctx, "only", None):  # development aid: --only <substring of an operator expression>[,...]
+        toks = [t for t in str(ctx.only).split(",") if t]
+        cs = [c for c in cs if any(t in e for t in toks for e in c["ops"])]
+        ctx.coverage["restricted_by_only"] = toks
     ctx.enumerate([c for c in cs if len(c["ops"]) == 1], axis="single operator x full option product")
     ctx.enumerate([c for c in cs if len(c["ops"]) == 2], axis="words of length 2")
     ctx.enumerate([c for c in cs if len(c["ops"]) == 3], axis="words of length 3")
